@@ -1562,7 +1562,7 @@ Proof.
   2:{ intros s [_ (_ & _ & Hm)]. exact Hm. }
   destruct (N.ltb_spec (lenN (minifat s0)) i) as [Hi|Hi]; [apply spec_panic; assumption|].
   eapply spec_bind; [apply spec_weaken; [apply chain_new_pres|assumption]|intros c].
-  destruct (_ <? _); [apply spec_panic; assumption|].
+  destruct (_ <? _); [apply spec_fail; assumption|].
   eapply spec_bind; [apply spec_weaken; [apply chain_seek_pres|assumption]|intros c'].
   eapply spec_bind; [apply spec_weaken; [apply chain_write_all_mf|assumption]|intros ?].
   apply spec_modify. intros s Hs. unfold mf, G1 in *. cbn [minifat w_minifat]. rewrite Hs.
